@@ -32,7 +32,7 @@ def split_steps(log):
 class Prover:
     """validity of real-arithmetic facts under the base assumptions of a configuration"""
 
-    def __init__(self, base, timeout_ms=20000):
+    def __init__(self, base, timeout_ms=60000):
         self.s = _Hyps()
         self.timeout_ms = timeout_ms
         for c in base:
